@@ -163,3 +163,20 @@ def long_case_text(f):
             if kind == li.get('kind') and len(text) == li.get('length'):
                 return kind, text, span
     return None
+
+
+def kernel_route(ctx, stage, texts, res, dist=None):
+    """Second evaluation route: a sample of the texts (corpus first) is evaluated by the KERNEL (vm_compute inside coqc, no
+    extraction, no OCaml) and compared with the implementation; disagreements go to res['disagreements'] under the stage
+    name kernel-<stage>.  Sharded: at most 150 texts per generated Coq file."""
+    import kernel_corr
+    n = ctx.n(120, 1500)
+    sample = [t for t in texts if len(t) <= 400][:n]
+    done = 0
+    for i in range(0, len(sample), 150):
+        d, k = kernel_corr.stage_disagreements(stage, sample[i:i + 150])
+        res['disagreements'] += d
+        done += k
+    if dist is not None:
+        dist['kernel_evaluated_' + stage] = done
+    return done
